@@ -206,8 +206,24 @@ def run_one(prop, case, ctx):
                 res = violated("the operations of this case changed process-global state that later outcomes depend on: %s" % (changed,), list(res["tags"]) + ["global-state-leak"])
     except CaseTimeout:
         return Result(INCONCLUSIVE, ["case-timeout"], "the case did not finish within the per-case watchdog", False)
-    except Exception:
-        # harness failure (generator / model / tap): never a violation, never a pass
+    except Exception as exc_:
+        # An exception that left the driver.  If the deepest frame that belongs to either the harness or the library is a line of the LIBRARY,
+        # the library raised while the driver was using what it had been given (reading back a returned array, iterating, building the next
+        # operand from a result): the result is unusable -- a violation, as for a monitored call.  Anything else is a failure of the harness
+        # itself (generator / model / tap): never a violation, never a pass.
+        deepest = None
+        tb_ = exc_.__traceback__
+        here_ = os.path.dirname(os.path.abspath(__file__)) + os.sep
+        while tb_ is not None:
+            fn_ = tb_.tb_frame.f_code.co_filename
+            if FP.libdir and fn_.startswith(FP.libdir):
+                deepest = ("lib", "%s:%d %s" % (os.path.basename(fn_), tb_.tb_lineno, tb_.tb_frame.f_code.co_name))
+            elif fn_.startswith(here_):
+                deepest = ("harness", None)
+            tb_ = tb_.tb_next
+        if deepest and deepest[0] == "lib" and not isinstance(exc_, (MemoryError, RecursionError)):
+            return violated("while the driver was reading back / using a result, the library raised %s: %s (at %s)\n%s" % (
+                type(exc_).__name__, str(exc_)[:200], deepest[1], traceback.format_exc(limit=6)[-900:]), ["raised-outside-monitored-call"])
         return Result(INCONCLUSIVE, ["harness-error"], traceback.format_exc(limit=8), False)
     if FP.libdir and FP.lib:
         ctx.tick("fp-events-in-library")
